@@ -157,9 +157,15 @@ def fMul (F : Libm) : PyFloat → PyFloat → PyFloat
   | .fin x, .inf b => if x = 0 then .nan else .inf (b != decide (x < 0))
   | .fin x, .fin y => F.rnd (x * y)
 
+/-- `x == 0.0` -/
+def PyFloat.isZero : PyFloat → Bool
+  | .fin q => decide (q = 0)
+  | _ => false
+
 /-- `float_div`: a zero divisor raises before any IEEE rule applies -/
-def fDiv (F : Libm) : PyFloat → PyFloat → Except HostExc PyFloat
-  | _, .fin 0 => .error .zeroDivision
+def fDiv (F : Libm) (x y : PyFloat) : Except HostExc PyFloat :=
+  if y.isZero then .error .zeroDivision else
+  match x, y with
   | .nan, _ => .ok .nan
   | _, .nan => .ok .nan
   | .inf _, .inf _ => .ok .nan
@@ -171,8 +177,9 @@ def fDiv (F : Libm) : PyFloat → PyFloat → Except HostExc PyFloat
 def ratFloorMod (x y : Rat) : Rat := x - y * ((x / y).floor : Rat)
 
 /-- `float_rem` (floatobject.c): `fmod` then the sign adjustment `mod += wx` -/
-def fMod (F : Libm) : PyFloat → PyFloat → Except HostExc PyFloat
-  | _, .fin 0 => .error .zeroDivision
+def fMod (F : Libm) (x y : PyFloat) : Except HostExc PyFloat :=
+  if y.isZero then .error .zeroDivision else
+  match x, y with
   | .nan, _ => .ok .nan
   | _, .nan => .ok .nan
   | .inf _, _ => .ok .nan
@@ -198,8 +205,9 @@ def powPosE (F : Libm) (a y : Rat) : Except HostExc PyFloat :=
     | .nan => .ok .nan
 
 /-- `float_pow` (floatobject.c), case by case in the order of the C code; `none` = complex result -/
-def fPow (F : Libm) : PyFloat → PyFloat → Except HostExc (Option PyFloat)
-  | _, .fin 0 => .ok (some (.fin 1))                                   -- iw == 0: 1.0, even for nan
+def fPow (F : Libm) (x y : PyFloat) : Except HostExc (Option PyFloat) :=
+  if y.isZero then .ok (some (.fin 1)) else                            -- iw == 0: 1.0, even for nan
+  match x, y with
   | .nan, _ => .ok (some .nan)
   | x, .nan => .ok (some (if x = .fin 1 then .fin 1 else .nan))
   | .inf _, .inf yneg => .ok (some (if yneg then .fin 0 else .inf false))
